@@ -45,6 +45,14 @@ func TestVerifC23(t *testing.T) {
 				if s := g.singletonJoin(); s != nil && g.valid(s) {
 					q = s
 				}
+			case 3:
+				if s := g.fixedRightJoin(); s != nil {
+					q = s
+				}
+			case 4:
+				if s := g.inListGroup(); s != nil {
+					q = s
+				}
 			case 1, 2:
 				// a table (with indexes, often the string table) restricted to fixed values, under
 				// one operator: selections against fixed values, '' selections on index columns
@@ -80,6 +88,34 @@ func TestVerifC23(t *testing.T) {
 		}
 		g.close()
 	}
+}
+
+func vsortedCopy(ss []string) []string {
+	out := append([]string{}, ss...)
+	sort.Strings(out)
+	return out
+}
+
+// vorderKind names the family of an ordering failure: a summary column named like a source
+// column somewhere below (the order requirement on it is passed to the source's column), else a
+// union below single-source operators, else the operator itself
+func vorderKind(n *vnode) string {
+	for x := n; ; x = x.kids[0] {
+		if x.op == "summarize" {
+			for _, a := range x.aggs {
+				if _, in := x.kids[0].find(a.col); in {
+					return "summary-named-like-source"
+				}
+			}
+		}
+		if x.op == "union" {
+			return "union"
+		}
+		if len(x.kids) != 1 {
+			break
+		}
+	}
+	return n.kind()
 }
 
 func vselsText(ids *vids, hdr *Header, sels Sels) (string, bool) {
@@ -230,6 +266,11 @@ func (g *vdb) checkC23(tr *lib.Trace, n *vnode) {
 		return rows
 	}
 	canon := func(rows []Row) *vresult { return vcanon(&g.ids, cols0, hdr, rows, th) }
+	if ec, xc := vsortedCopy(vnoDeps(q0.Columns())), vsortedCopy(vnoDeps(hdr.Columns)); strings.Join(ec, ",") != strings.Join(xc, ",") {
+		// the executed query has other result columns than the query as written
+		tr.Fail("contract-cols:"+vshape(g.vlocalise(n, 1)), at()+fmt.Sprintf(" | columns as written %v | executed %v", ec, xc))
+		return
+	}
 	next := canon(readAll(Next))
 	if strings.Join(next.rows, ";") != strings.Join(exp.rows, ";") {
 		tr.Fail("contract-rows:"+vshape(g.vlocalise(n, 1)), at()+" | as written "+vtrunc(exp.show(&g.ids), 300)+" | read "+vtrunc(next.show(&g.ids), 300))
@@ -241,7 +282,7 @@ func (g *vdb) checkC23(tr *lib.Trace, n *vnode) {
 		rev[len(rev)-1-i] = s
 	}
 	if strings.Join(prev.seq, ";") != strings.Join(rev, ";") {
-		tr.Fail("prev-not-reverse:"+use.String(), at()+" | forwards "+vtrunc(strings.Join(next.seq, ";"), 300)+" | backwards "+vtrunc(strings.Join(prev.seq, ";"), 300))
+		tr.Fail("prev-not-reverse:"+vorderKind(n), at()+" | forwards "+vtrunc(strings.Join(next.seq, ";"), 300)+" | backwards "+vtrunc(strings.Join(prev.seq, ";"), 300))
 	}
 	// a sort as written: the rows read forwards are in that order (reverse: descending)
 	if n.op == "sort" && len(next.seq) > 0 {
@@ -271,7 +312,7 @@ func (g *vdb) checkC23(tr *lib.Trace, n *vnode) {
 			ordRows = append(ordRows, vshowVals(vs))
 		}
 		if !okOrder {
-			tr.Fail("sort-order-not-respected:"+n.kids[0].kind(), at()+" | "+vtrunc(strings.Join(ordRows, ";"), 300))
+			tr.Fail("sort-order-not-respected:"+vorderKind(n.kids[0]), at()+" | "+vtrunc(strings.Join(ordRows, ";"), 300))
 		} else {
 			tr.Q("sorted "+lib.B(n.rev)+" "+g.ids.list(n.list)+" "+strings.Join(ordRows, " "), lib.B(okOrder))
 		}
@@ -305,7 +346,7 @@ func (g *vdb) checkC23(tr *lib.Trace, n *vnode) {
 			i++
 		}
 		if !okOrder {
-			tr.Fail("order-not-respected", at()+" | "+vtrunc(strings.Join(ordRows, ";"), 300))
+			tr.Fail("order-not-respected:"+vorderKind(n), at()+" | "+vtrunc(strings.Join(ordRows, ";"), 300))
 		} else {
 			tr.Q("sorted f "+g.ids.list(index)+" "+strings.Join(ordRows, " "), lib.B(okOrder))
 		}
